@@ -15,6 +15,16 @@ R = z3.RealSort()
 I = z3.IntSort()
 
 
+def timed_check(solver, timeout_ms, *assumptions):
+  """solver.check under z3's own timeout (set per call).  A hard wall-clock
+  limit per case is enforced by the runner, which kills the case process."""
+  solver.set("timeout", int(timeout_ms))
+  try:
+    return solver.check(*assumptions)
+  except z3.Z3Exception:
+    return z3.unknown
+
+
 class HarnessError(Exception):
   """Something the engine cannot model happened (proxy leaked, unsupported op)."""
 
@@ -58,7 +68,7 @@ class Run(object):
 
   def _check(self, extra):
     t0 = time.time()
-    r = self.solver.check(extra)
+    r = timed_check(self.solver, self.explorer.query_timeout_ms, extra)
     st = self.explorer.stats
     st["feasibility_queries"] += 1
     st["solver_s"] += time.time() - t0
@@ -85,6 +95,10 @@ class Run(object):
     if i < len(self.prefix):
       choice = self.prefix[i]
     else:
+      ex = self.explorer
+      if ex.deadline and time.time() > ex.deadline:
+        ex.stats["truncated"] = True
+        raise PathAbort("time budget of the exploration exhausted inside a path", "budget")
       rt = self._check(cond)
       rf = self._check(z3.Not(cond))
       can_t = rt != z3.unsat
@@ -138,8 +152,9 @@ class PathResult(object):
 
 
 class Explorer(object):
-  def __init__(self, max_paths=20000, query_timeout_ms=10000, first_choice=True):
+  def __init__(self, max_paths=20000, query_timeout_ms=10000, first_choice=True, max_seconds=None):
     self.max_paths = max_paths
+    self.deadline = (time.time() + max_seconds) if max_seconds else None
     self.query_timeout_ms = query_timeout_ms
     self.first_choice = first_choice
     self.worklist = []
@@ -150,19 +165,24 @@ class Explorer(object):
     self.worklist.append(prefix)
 
   def explore(self, fn, catch=(Exception,)):
-    """Run fn() once per feasible path.  Returns list of PathResult.
-    Exceptions of the types in `catch` end a path and are recorded in .exc."""
+    """Run fn() once per feasible path.  Returns list of PathResult."""
+    return list(self.iter_paths(fn, catch))
+
+  def iter_paths(self, fn, catch=(Exception,)):
+    """Generator over the feasible paths of fn() (depth-first).  Exceptions of
+    the types in `catch` end a path and are recorded in .exc.  Stops (and marks
+    the exploration truncated) at max_paths or at the deadline."""
     global CUR
-    results = []
     self.worklist = [[]]
     while self.worklist:
-      if self.stats["paths"] >= self.max_paths:
+      if self.stats["paths"] >= self.max_paths or (self.deadline and time.time() > self.deadline):
         self.stats["truncated"] = True
         break
       prefix = self.worklist.pop()
       run = Run(self, prefix)
       prev = CUR
       CUR = run
+      res = None
       try:
         try:
           v = fn()
@@ -170,19 +190,22 @@ class Explorer(object):
         except PathAbort as pa:
           if pa.kind == "infeasible":
             self.stats["infeasible"] += 1
-            continue
-          self.stats["aborted"] += 1
-          res = PathResult(run, aborted=pa.reason)
+          elif pa.kind == "budget":
+            pass
+          else:
+            self.stats["aborted"] += 1
+            res = PathResult(run, aborted=pa.reason)
         except HarnessError:
           raise
         except catch as e:
           res = PathResult(run, exc=e)
       finally:
         CUR = prev
+      if res is None:
+        continue
       self.stats["paths"] += 1
       self.stats["decisions"] += len(run.decisions)
-      results.append(res)
-    return results
+      yield res
 
 
 # --------------------------------------------------------------------------
@@ -322,7 +345,31 @@ class SReal(float):
     raise HarnessError("unsupported operation on SReal")
 
   __floordiv__ = __rfloordiv__ = __mod__ = __rmod__ = __divmod__ = __rdivmod__ = _unsupported
-  __round__ = __trunc__ = __floor__ = __ceil__ = __int__ = _unsupported
+  __round__ = __floor__ = __ceil__ = _unsupported
+
+  def __int__(self):
+    """int() of a symbolic real under the *real* model: if the path condition
+    fixes trunc(x) to one integer, that concrete int is returned (and noted);
+    otherwise the path leaves the stated bound."""
+    run = cur()
+    s = run.solver
+    if s.check() != z3.sat:
+      raise PathAbort("int() of a symbolic real: path condition not satisfiable/unknown")
+    v = s.model().eval(self.t, model_completion=True)
+    if not z3.is_rational_value(v):
+      raise PathAbort("int() of a symbolic real whose value is not rational in the model")
+    import math
+    fr = fractions.Fraction(v.numerator_as_long(), v.denominator_as_long())
+    k = math.trunc(fr)
+    kk = z3.RealVal(k)
+    inside = z3.And(self.t >= kk, self.t < kk + 1) if k > 0 else (
+      z3.And(self.t > kk - 1, self.t <= kk) if k < 0 else z3.And(self.t > -1, self.t < 1))
+    if s.check(z3.Not(inside)) == z3.unsat:
+      run.notes.append("int() of a symbolic real concretised to %d (real-number model; rounding is outside the claim)" % k)
+      return k
+    raise PathAbort("int() of a symbolic real is not determined by the path condition")
+
+  __trunc__ = __int__
 
   # -- comparisons
   def _cmp(self, o, op):
